@@ -29,7 +29,7 @@ type pairInst struct {
 
 func newPairInst(sc SeqScenario) (*pairInst, string) {
 	in := NewInst()
-	s := streamsql.New(streamsql.WithDiscardLog())
+	s := newInstance(streamsql.WithDiscardLog())
 	if err := s.Execute(sc.SQL); err != nil {
 		in.Close()
 		return nil, "execute: " + err.Error()
